@@ -59,6 +59,20 @@ type TxRes struct {
 	GasUsed   int64
 	GasWanted int64
 	Log       string // recorded, never compared
+	Events    string // canonical rendering of the result's events; compared only where a property says "results" without restriction (C08)
+}
+
+func eventsKey(evs []abci.Event) string {
+	var sb strings.Builder
+	for _, ev := range evs {
+		sb.WriteString(ev.Type)
+		sb.WriteByte('{')
+		for _, a := range ev.Attributes {
+			fmt.Fprintf(&sb, "%q=%q,", a.Key, a.Value)
+		}
+		sb.WriteByte('}')
+	}
+	return sb.String()
 }
 
 func (t TxRes) Key() string {
@@ -262,7 +276,7 @@ func (ip *interposer) DeliverTx(req abci.RequestDeliverTx) (res abci.ResponseDel
 	ip.at(CDeliverTx, h, idx, false)
 	ip.guard("DeliverTx", func() { res = ip.inner.DeliverTx(req) })
 	if t.cur != nil {
-		t.cur.Txs = append(t.cur.Txs, TxRes{Code: res.Code, Data: append([]byte{}, res.Data...), GasUsed: res.GasUsed, GasWanted: res.GasWanted, Log: res.Log})
+		t.cur.Txs = append(t.cur.Txs, TxRes{Code: res.Code, Data: append([]byte{}, res.Data...), GasUsed: res.GasUsed, GasWanted: res.GasWanted, Log: res.Log, Events: eventsKey(res.Events)})
 		t.cur.TxBytes = append(t.cur.TxBytes, req.Tx)
 	}
 	ip.txIdx++
@@ -322,6 +336,16 @@ func CompareAttempts(ref, got *BlockAttempt) string {
 	if got.Committed {
 		if !bytes.Equal(ref.AppHash, got.AppHash) {
 			return fmt.Sprintf("h%d: app hash differs: ref=%x got=%x", got.Height, ref.AppHash, got.AppHash)
+		}
+	}
+	return ""
+}
+
+// CompareEvents reports the first delivered transaction whose events differ from the reference's.
+func CompareEvents(ref, got *BlockAttempt) string {
+	for i, tr := range got.Txs {
+		if i < len(ref.Txs) && ref.Txs[i].Events != tr.Events {
+			return fmt.Sprintf("h%d tx#%d: DeliverTx events differ: ref[%s] got[%s]", got.Height, i, clip(ref.Txs[i].Events), clip(tr.Events))
 		}
 	}
 	return ""
